@@ -321,6 +321,15 @@ def dofs_nodes_rule(ctx, r1=None):
 # ---------------------------------------------------------------------------
 
 
+def exact_(x):
+    from ..xeval import exact
+
+    x = exact(x)
+    if isinstance(x, Poly) and x.is_const():
+        x = x.const_value()
+    return x
+
+
 class XCsr:
     """scipy.sparse.csr_matrix as far as the assembly uses it (trusted scipy semantics: the COO constructor sums
     duplicates and the canonical pattern is sorted by row, then column)."""
@@ -379,6 +388,31 @@ class XCsr:
 
     def sort_indices(self):
         return None
+
+    # the list-of-lists view used to overwrite single rows / entries
+    def tolil(self):
+        return self
+
+    def tocsr(self):
+        return self
+
+    def __setitem__(self, key, value):
+        i, j = key
+        i = int(exact_(i))
+        v = exact_(value)
+        if isinstance(j, slice):
+            cols = range(*j.indices(self.shape[1]))
+        else:
+            cols = [int(exact_(x)) for x in (j.data if isinstance(j, XArray) else [j])]
+        for c in cols:
+            if isinstance(v, (int, Fraction)) and v == 0:
+                self.entries.pop((i, c), None)
+            else:
+                self.entries[(i, c)] = v
+        self._rebuild()
+
+    def row_sum(self, i):
+        return sum((v for (a, _), v in self.entries.items() if a == i), 0)
 
     def dense(self):
         return {k: v for k, v in self.entries.items()}
